@@ -91,6 +91,8 @@ def rewards(rnd, n, sid="R"):
             q = rnd.random()
             if q < 0.55:
                 st["hour"] = rnd.choice([12, 13, 14, 15, 16, 16, 13]) + 0
+                if rnd.random() < 0.4:                 # the first / last second of that hour: 12:00:00, 14:59:59, 15:00:00, 11:59:59
+                    st["edge"] = rnd.choice(["start", "end"])
                 if rnd.random() < 0.6:
                     st["dt"] = rnd.choice([3600, 10800, 86400, 86400])
             elif q < 0.7:
@@ -109,4 +111,23 @@ def rewards(rnd, n, sid="R"):
             steps.append(st)
         steps.append({"op": "block"})
         out.append({"id": "%s%d" % (sid, k), "world": "/".join(parts), "family": "rewards", "steps": steps})
+    return out
+
+
+def window_edges():
+    """The daily window to the second: the first block of a stake period (period 2: odd heights) stamped 11:59:59, 12:00:00,
+    14:59:59 and 15:00:00, more than three hours after the previous update, with a price that moved in between; both parities
+    of the number of leading blocks, so that one of the two variants puts the edged block on a period start."""
+    out = []
+    for hour, edge in ((11, "end"), (12, "start"), (14, "end"), (15, "start")):
+        for lead in (1, 2, 3):
+            for ptime in (3600, 86400):
+                pool = Pool(10)
+                tx = pool.trade_to(pool.price() * 1.2)
+                tx.update({"id": "t1", "from": "a1"})
+                steps = [{"op": "block"} for _ in range(lead)]
+                steps[-1]["txs"] = [tx]
+                steps.append({"op": "block", "hour": hour + 1, "edge": edge, "dt": 86400})
+                steps += [{"op": "block"}, {"op": "block", "hour": hour + 1, "edge": edge, "dt": 86400}, {"op": "block"}, {"op": "block"}]
+                out.append({"id": "rwe-%d%s-%d-%d" % (hour, edge[0], lead, ptime), "world": "WR/p=10/ptime=%d" % ptime, "family": "rewards", "steps": steps})
     return out
